@@ -1,5 +1,6 @@
 import Zlink.Proofs.RxBounds
 import Zlink.Proofs.RxOracle
+import Zlink.Proofs.RxPhases
 import Zlink.Proofs.Tx
 import Zlink.Gen.Consts
 /-! # C17 — Buffers are bounded: oversized traffic is refused, smaller traffic accepted
@@ -64,6 +65,21 @@ theorem C17_rx_threshold (C : Consts) (M : Nat) (hs : 0 < C.step) (hm : C.max = 
         exact hf.2 (List.mem_of_mem_take h))
     rw [h1]
 
+/-- **The verdict does not depend on what the connection carried before.** After any history of bursts,
+    each handed out completely before the next arrives (any number, any total size, any chunking and
+    polling), the buffer has some capacity between one step and the limit — and the next frame is delivered
+    iff its wire size is below the limit, refused with `overflow` otherwise, exactly as on a fresh
+    connection. -/
+theorem C17_rx_threshold_any_history (C : Consts) (M : Nat) (hs : 0 < C.step) (hm : C.max = M * C.step) (hM : 1 ≤ M)
+    (sizes : Nat → Nat) (ps : List Phase) (hps : ∀ p ∈ ps, PhaseOK C p)
+    (hcons : AllConsumed ps (runPhases C sizes ps (init C) net0).1)
+    (k : Nat) (f : List Byte) (hf : FrameOK f) :
+    (poll C sizes (runPhases C sizes ps (init C) net0).2.1 ⟨f ++ [0], true, k⟩).1 =
+      if f.length + 1 < C.max then .frame f else .err .overflow := by
+  obtain ⟨hi, hc, _, _⟩ := (phases_from_idle C M hs hm sizes ps (init C) net0 hps (init_idle C)
+    ⟨1, by simp [init], Nat.le_refl _, hM⟩ rfl rfl).2 hcons
+  exact threshold_from_idle C M hs hm sizes _ hi hc k f hf
+
 /-- **Outbound threshold**: a message of `len` bytes submitted when `p` bytes are queued is accepted
     iff `p + len + 1 ≤ max`; otherwise it is refused with `overflow`, nothing is queued and nothing
     is written. (Via the refinement `Tx.run_refines`, this is the behaviour of the buffer-level code.) -/
@@ -104,5 +120,11 @@ def C : Consts := { step := 4, max := 8 }
 example : (poll C (fun _ => 2) (init C) ⟨[1, 2, 3, 4, 5, 6, 0], true, 0⟩).1 = .frame [1, 2, 3, 4, 5, 6] := by decide
 example : (poll C (fun _ => 2) (init C) ⟨[1, 2, 3, 4, 5, 6, 7, 0], true, 0⟩).1 = .err .overflow := by decide
 example : (poll C (fun _ => 2) (init C) ⟨[1, 2, 3, 4, 5, 6, 7, 8, 9, 10], false, 0⟩).1 = .err .overflow := by decide
+/-- a history that leaves the buffer grown (capacity 8 = the limit), then frames at the threshold -/
+def hist : List Phase := [([[1, 2, 3, 4, 5]], [.arrive [1, 2, 3, 4, 5, 0], .poll])]
+example : AllConsumed hist (runPhases C (fun _ => 2) hist (init C) net0).1 ∧ (runPhases C (fun _ => 2) hist (init C) net0).2.1.cap = 8 :=
+  ⟨⟨by decide, trivial⟩, by decide⟩
+example : (poll C (fun _ => 2) (runPhases C (fun _ => 2) hist (init C) net0).2.1 ⟨[1, 2, 3, 4, 5, 6, 0], true, 0⟩).1 = .frame [1, 2, 3, 4, 5, 6] := by decide
+example : (poll C (fun _ => 2) (runPhases C (fun _ => 2) hist (init C) net0).2.1 ⟨[1, 2, 3, 4, 5, 6, 7, 0], true, 0⟩).1 = .err .overflow := by decide
 end Example
 end C17
